@@ -215,9 +215,11 @@ def gen_policy(rng, name, nss):
     types = rng.choice([[], ["Ingress"], ["Egress"], ["Ingress", "Egress"]])
     ing = [gen_rule(rng) for _ in range(rng.choice([0, 1, 1, 2]))]
     eg = [gen_rule(rng) for _ in range(rng.choice([0, 0, 1, 2]))]
-    if types and "Ingress" not in types:
-        ing = []          # rules of a direction the policy does not declare crash galaxy (F8, property C18) - out of domain
-    if types and "Egress" not in types:
+    # a policy may keep the rule section of a direction its policyTypes do not list: Kubernetes ignores the section (such
+    # objects crashed galaxy before fix c64b875, F8d)
+    if types and "Ingress" not in types and rng.random() < 0.6:
+        ing = []
+    if types and "Egress" not in types and rng.random() < 0.6:
         eg = []
     return {"ns": rng.choice(nss), "name": name, "sel": gen_sel(rng), "types": types, "ingress": ing, "egress": eg}
 
@@ -299,6 +301,17 @@ def gen_mutations(rng, ctx, w, used, n):
                 w["pods"][key] = q
                 steps.append({"op": "set_pod", "pod": q})
                 ctx.dist("mut:recreate-pod-new-ip")
+        elif k < 0.66 and w["pods"]:
+            # a pod is replaced under its name by one that still waits for its address (delivered as an update of the same
+            # namespace/name, or missed altogether while galaxy is down)
+            key = rng.choice(sorted(w["pods"]))
+            q = copy.deepcopy(w["pods"][key])
+            q["ip"] = ""
+            if rng.random() < 0.5:
+                q["labels"] = {"app": rng.choice(APPS)}
+            w["pods"][key] = q
+            steps.append({"op": "set_pod", "pod": q})
+            ctx.dist("mut:pod-replaced-ipless")
         elif k < 0.75:
             p = gen_pod(rng, "p%d" % rng.randrange(8), nss, used)
             key = p["ns"] + "/" + p["name"]
@@ -354,8 +367,15 @@ def gen_prior(rng, ctx):
 
 def gen_case(rng, ctx):
     w, used = gen_cluster(rng, ctx)
-    tmpl = rng.choice(["restart", "restart", "restart", "events", "events", "events", "fresh", "drain"])
+    tmpl = rng.choice(["restart", "restart", "restart", "events", "events", "events", "fresh", "drain", "ipless"])
     ctx.dist("template:" + tmpl)
+    if tmpl == "ipless":
+        if not w["pols"]:
+            x = gen_policy(rng, "pol0", sorted(w["ns"]))
+            w["pols"][x["ns"] + "/" + x["name"]] = x
+        for x in w["pols"].values():
+            if not x["sel"]:
+                x["sel"] = {"app": rng.choice(APPS)}
     case = {"prior": gen_prior(rng, ctx), "cluster": {"namespaces": list(w["ns"].values()), "pods": list(w["pods"].values()),
                                                       "policies": list(w["pols"].values())}}
     steps = [{"op": "start"}, {"op": "run"}]
@@ -366,6 +386,20 @@ def gen_case(rng, ctx):
         steps += gen_mutations(rng, ctx, w, used, rng.choice([2, 3, 4, 5])) + [{"op": "run"}, {"op": "run"}]
     elif tmpl == "fresh":
         steps += [{"op": "run"}]
+    elif tmpl == "ipless":
+        # pods that had chains come back under their names without an address and are no longer selected by any policy
+        # (the policies stay - deleting them while galaxy is down is the recorded finding K5 - the pods' new labels match none)
+        down = rng.random() < 0.6
+        mid = []
+        for key in sorted(w["pods"]):
+            if rng.random() < 0.7:
+                q = copy.deepcopy(w["pods"][key])
+                q["ip"] = ""
+                q["labels"] = {"app": "idle"}
+                w["pods"][key] = q
+                mid.append({"op": "set_pod", "pod": q})
+        rng.shuffle(mid)
+        steps += ([{"op": "stop"}] if down else []) + mid + ([{"op": "start"}] if down else []) + [{"op": "run"}, {"op": "run"}]
     elif tmpl == "drain":
         steps += [{"op": "stop"}] + [{"op": "del_policy", "ns": x["ns"], "name": x["name"]} for x in w["pols"].values()] + \
                  [{"op": "start"}, {"op": "run"}, {"op": "run"}]
@@ -436,9 +470,10 @@ def case_exprs(case, o):
     for i, (term, cl, kind) in enumerate(ms):
         if kind == "run":
             mons.append(("exact", i, "(mon_exact_is 0 %s %s %s %s %s)" % (tbl, cstr(HOST), cl, kernels[i], kernels[i + 1]),
-                         (tbl, cl, kernels[i], kernels[i + 1])))
+                         (tbl, cl, kernels[i], kernels[i + 1], "(model_exact_at %s %s %s %s %d%%nat %s)" % (tbl, cstr(HOST), kernels[0], steps, i, cl))))
             if i > 0 and ms[i - 1][2] == "run":
-                mons.append(("idem", i, "(kernel_eqv %s %s)" % (kernels[i], kernels[i + 1]), (tbl, ms[i - 1][1], kernels[i - 1], kernels[i])))
+                mons.append(("idem", i, "(kernel_eqv %s %s)" % (kernels[i], kernels[i + 1]), (tbl, ms[i - 1][1], kernels[i - 1], kernels[i],
+                                                                                                "(model_idem_at %s %s %s %s %d%%nat)" % (tbl, cstr(HOST), kernels[0], steps, i))))
         dang = [r for r in o["steps"][i]["rejected"] if (r["kind"], r["why"]) in DANGLING]
         if dang and kind != "none":
             mons.append(("dangling", i, "(negb (stale_referenced (hash_of %s) %s %s))" % (tbl, cl, kernels[i]), dang))
@@ -463,7 +498,7 @@ def run(ctx):
     ctx.assumptions += ["netfilter/ipset assumptions of DESIGN.md section 6 (incl. add -exist rewrites an element's nomatch flag)",
                         "events are handled one at a time, in order; pod chains synced by parallel goroutines commute "
                         "(compared up to rule order in pod chains and hook chains)",
-                        "policies with rules for a direction their policyTypes omit are not generated (they crash galaxy: F8, C18)"]
+                        "policies may carry rules for a direction their policyTypes omit (ignored by Kubernetes; F8d repaired)"]
     ctx.theorems("C15", THEOREMS, REFUTED, deps=DEPS)
     cases = list(json.load(open(vf.ROOT + "/corpus/C15.json"))["cases"])
     for _ in cases:
@@ -504,7 +539,9 @@ def run(ctx):
     cls_exprs, cls_meta = [], []
     for (i, kind, k, aux) in bad:
         if kind in ("exact", "idem"):
-            tbl, cl, k0, k1 = aux
+            tbl, cl, k0, k1, model_ok = aux
+            cls_exprs.append(model_ok)
+            cls_meta.append((i, kind, k, "model"))
             for n_ in (5, 1, 2, 3):
                 if kind == "exact":
                     cls_exprs.append("(mon_exact_is %d %s %s %s %s %s)" % (n_, tbl, cstr(HOST), cl, k0, k1))
@@ -519,8 +556,12 @@ def run(ctx):
         ctx.violation("correspondence", "the Coq evaluation of the C15 classification failed", {}, found=False, theorem="C15c")
         return
     shape = {}
+    model_holds = set()       # the model (= the unchanged code) passes the monitor at this step: no recorded finding explains the failure
     for (i, kind, k, n_), b in zip(cls_meta, rcls):
-        if b and (i, kind, k) not in shape:
+        if n_ == "model":
+            if b:
+                model_holds.add((i, kind, k))
+        elif b and (i, kind, k) not in shape and (i, kind, k) not in model_holds:
             shape[(i, kind, k)] = n_
     TAGS = {1: "c15-stale-policy-chain-referenced", 2: "c15-stale-pod-chain", 3: "c15-nomatch-flag-flip",
             5: "c15-conflicting-ipblock-flags"}
